@@ -182,6 +182,12 @@ var SpecificIntentKinds = []string{
 	"v2pay", "v2merge", "v2sf", "v2form", "v2rev", "v2renew", "v2proof", "v2expire", "v2attest", "v2foundation", "v2arb",
 }
 
+type ephSFOut struct {
+	id    types.SiafundOutputID
+	out   types.SiafundOutput
+	owner int
+}
+
 type ephOut struct {
 	id    types.SiacoinOutputID
 	out   types.SiacoinOutput
@@ -211,9 +217,14 @@ type BlockBuilder struct {
 	spentSF map[types.SiafundOutputID]bool
 	usedFC  map[types.FileContractID]bool
 	eph     []ephOut
-	usedWE  map[uint64]bool
-	serial  int
-	onlyFC  *types.FileContractID
+	// ephemeral siafund outputs of v2 transactions built or absorbed so far,
+	// usable only while nothing in the builder changes the tax revenue (their
+	// claim start is then exactly the parent ledger's revenue)
+	ephSF    []ephSFOut
+	taxMoved bool
+	usedWE   map[uint64]bool
+	serial   int
+	onlyFC   *types.FileContractID
 }
 
 // NewBlockBuilder creates a builder for a child of l.
@@ -375,6 +386,9 @@ func (bb *BlockBuilder) addV1(txn types.Transaction, kind string) {
 	for _, sfi := range txn.SiafundInputs {
 		bb.spentSF[sfi.ParentID] = true
 	}
+	if len(txn.FileContracts) > 0 {
+		bb.taxMoved = true
+	}
 	bb.Txns = append(bb.Txns, txn)
 	bb.TxnKinds = append(bb.TxnKinds, kind)
 }
@@ -389,6 +403,12 @@ func (bb *BlockBuilder) addV2(txn types.V2Transaction, kind string) {
 	}
 	for _, sfi := range txn.SiafundInputs {
 		bb.spentSF[sfi.Parent.ID] = true
+	}
+	for i, o := range txn.SiafundOutputs {
+		bb.ephSF = append(bb.ephSF, ephSFOut{txn.SiafundOutputID(txid, i), o, ActorOf(o.Address)})
+	}
+	if len(txn.FileContracts) > 0 || len(txn.FileContractResolutions) > 0 {
+		bb.taxMoved = true
 	}
 	bb.V2Txns = append(bb.V2Txns, txn)
 	bb.V2TxnKinds = append(bb.V2TxnKinds, kind)
@@ -901,12 +921,30 @@ func (bb *BlockBuilder) Add(in Intent) bool {
 			bb.skip(in, "regime")
 			return false
 		}
-		c := bb.sfCandidates(who)
-		if len(c) == 0 {
-			bb.skip(in, "no-input")
-			return false
+		var e types.SiafundElement
+		picked := false
+		if in.Eph && !bb.taxMoved && cs.Index.Height+1 < cs.Network.HardforkV2.EphemeralOutputHeight {
+			// a siafund output created earlier in this block / set
+			var ec []ephSFOut
+			for _, o := range bb.ephSF {
+				if o.owner == who && !bb.spentSF[o.id] {
+					ec = append(ec, o)
+				}
+			}
+			if len(ec) > 0 {
+				o := ec[mod(in.Pick, len(ec))]
+				e = types.SiafundElement{ID: o.id, StateElement: types.StateElement{LeafIndex: types.UnassignedLeafIndex}, SiafundOutput: o.out, ClaimStart: cs.SiafundTaxRevenue}
+				picked = true
+			}
 		}
-		e := c[mod(in.Pick, len(c))].Copy()
+		if !picked {
+			c := bb.sfCandidates(who)
+			if len(c) == 0 {
+				bb.skip(in, "no-input")
+				return false
+			}
+			e = c[mod(in.Pick, len(c))].Copy()
+		}
 		v := e.SiafundOutput.Value
 		give := v * uint64(mod(in.Amt, 10)+1) / 12
 		if give == 0 {
@@ -1165,6 +1203,9 @@ func Recommit(cs consensus.State, b *types.Block) {
 // outputs can be spent as ephemeral outputs. Nothing is added to the block.
 func (bb *BlockBuilder) Absorb(txns []types.Transaction, v2txns []types.V2Transaction) {
 	for _, txn := range txns {
+		if len(txn.FileContracts) > 0 {
+			bb.taxMoved = true
+		}
 		for i, o := range txn.SiacoinOutputs {
 			bb.eph = append(bb.eph, ephOut{txn.SiacoinOutputID(i), o, ActorOf(o.Address), false})
 		}
@@ -1192,6 +1233,12 @@ func (bb *BlockBuilder) Absorb(txns []types.Transaction, v2txns []types.V2Transa
 		for _, sfi := range txn.SiafundInputs {
 			bb.spentSF[sfi.Parent.ID] = true
 		}
+		for i, o := range txn.SiafundOutputs {
+			bb.ephSF = append(bb.ephSF, ephSFOut{txn.SiafundOutputID(txid, i), o, ActorOf(o.Address)})
+		}
+		if len(txn.FileContracts) > 0 || len(txn.FileContractResolutions) > 0 {
+			bb.taxMoved = true
+		}
 		for _, fcr := range txn.FileContractRevisions {
 			bb.usedFC[fcr.Parent.ID] = true
 		}
@@ -1209,7 +1256,7 @@ func (bb *BlockBuilder) Reset() {
 
 // DropEphemeral forgets the ephemeral outputs absorbed so far (their
 // creating transactions are not part of what is being built).
-func (bb *BlockBuilder) DropEphemeral() { bb.eph = nil }
+func (bb *BlockBuilder) DropEphemeral() { bb.eph, bb.ephSF = nil, nil }
 
 // V1Spend builds a signed v1 transaction moving the whole element to another actor.
 func V1Spend(cs consensus.State, e types.SiacoinElement, who, to int, tag int) types.Transaction {
